@@ -47,7 +47,7 @@ CHECKS = {
    note="Trusts R-BUMP; two behaviours the statement leaves open are masked (invented label, kept number); outputs read back with zerv's RON parser.",
    technique="exhaustive subset + permutation enumeration of flag instances against a reference precedence machine, with chained (non-initial) states", ref="C05"),
  "C04": dict(cat="model_checking",
-   text="Full product of base tag x 27 branch names (prefix-without-slash, digit segments, zero padding, '+N' segments, u32-overflowing and non-ASCII names, absent branch) x distance x dirty flag x --post x --pre-release-label x --pre-release-num x --post-mode x 4 rule sets (first-match shadowing, exact and prefix rules) through run_flow_pipeline with --output-format zerv on sources none and stdin, compared field by field with R-FLOW; every hash length 0..11 x every branch against an independent SipHash-1-3 (R-SIP); BranchRules::resolve_for_branch directly.",
+   text="Full product of base tag x 27 branch names (prefix-without-slash, digit segments, zero padding, '+N' segments, u32-overflowing and non-ASCII names, absent branch) x distance x dirty flag x --post x --pre-release-label x --pre-release-num x --post-mode x 5 rule sets (first-match shadowing, exact and prefix rules, prefixes containing a digit segment) through run_flow_pipeline with --output-format zerv on sources none and stdin, compared field by field with R-FLOW; every hash length 0..11 x every branch against an independent SipHash-1-3 (R-SIP); BranchRules::resolve_for_branch directly.",
    note="Trusts R-FLOW and R-SIP (self-tested against the README value); three behaviours left open by the statement are counted, not compared; wall clock pinned.",
    technique="exhaustive product enumeration of flow inputs against a reference law and an independent hash", ref="C04"),
  "C03": dict(cat="model_checking",
